@@ -768,6 +768,7 @@ func Check(r *ev.Run, replay string) {
 	longLists(r, doms[0], &t, r.Thorough())
 	dbg("long lists")
 	literalFamily(r, &t)
+	sortExtremes(r, &t)
 	dbg("literals")
 	r.Set("states", t.states)
 	r.Set("transitions", t.transitions)
